@@ -437,6 +437,54 @@ func ruleZ3(c *Ctx, id string) {
 			}
 		}
 	}
+	// ... and it clears up to the end of the block: the loop's bound must not be computed from the file's size (a
+	// bound taken from the old end of file is right only when old and new end lie in the same block)
+	for fn := range reach {
+		if FuncName(fn) != found || found == "" {
+			continue
+		}
+		for _, b := range fn.Blocks {
+			for _, in := range b.Instrs {
+				st, ok := in.(*ssa.Store)
+				if !ok {
+					continue
+				}
+				if k, isk := constInt(st.Val); !isk || k != 0 {
+					continue
+				}
+				ia, ok := st.Addr.(*ssa.IndexAddr)
+				if !ok {
+					continue
+				}
+				// the tests that keep the loop going: branches in the store's cycle that compare the index
+				idxCone := bwdArith(ia.Index)
+				dep := ""
+				nb := 0
+				for _, br := range branches(fn) {
+					if br.Cond.X == nil || br.Cond.Y == nil || !reachableFrom(st, br.Block.Instrs[len(br.Block.Instrs)-1]) || !reachableFrom(br.Block.Instrs[0], st) {
+						continue
+					}
+					var bound ssa.Value
+					if idxCone[stripConv(br.Cond.X)] {
+						bound = br.Cond.Y
+					} else if idxCone[stripConv(br.Cond.Y)] {
+						bound = br.Cond.X
+					} else {
+						continue
+					}
+					nb++
+					for v := range bwdArith(bound) {
+						if n, fl, _, _ := loadedField(v); n == V.Inode && (fl == "Size" || fl == "ShrinkSize") {
+							dep = P.Pos(br.Block.Instrs[len(br.Block.Instrs)-1].Pos())
+						}
+					}
+				}
+				if nb > 0 {
+					R.Check(dep == "", id, "inode.Resize|tail cleared to the end of the block", P.Pos(st.Pos()), "the clearing loop's bound is the block size (not a value computed from the file's size)", "bound independent of Inode.Size", "the clearing stops at a position computed from the old file size: after a shrink across a block boundary the kept block still holds old bytes behind the new end, and growing the file shows them")
+				}
+			}
+		}
+	}
 	// ... and it runs whenever the size shrinks to an unaligned value: a path through Resize that skips the
 	// clearing takes the 'not smaller than the current size' edge or the 'aligned' edge
 	if found != "" {
